@@ -6,6 +6,7 @@ import Lean.Data.Json
 import Hive.Step
 import Hive.Energy
 import Hive.Traverse
+import Hive.Timed
 
 open Lean
 
@@ -47,6 +48,9 @@ deriving instance FromJson, ToJson for Sim
 deriving instance FromJson, ToJson for Event
 deriving instance FromJson, ToJson for MechKind
 deriving instance FromJson, ToJson for Mech
+deriving instance FromJson for Timed.ReqRow
+deriving instance FromJson for Timed.PriceRow
+deriving instance FromJson for Timed.StepObs
 
 /-! ### recorded oracle answers -/
 
